@@ -13,11 +13,12 @@ import (
 func TestVerif(t *testing.T) {
 	vrep.Main(t, "github.com/google/licenseclassifier/stringclassifier/internal/sets", map[string]vrep.Harness{
 		"c20_intset": func(c *vrep.Ctx) {
+			long := c.Param("family", "") == "long"
 			u := []int{-1, 0, 7}
 			if c.Thorough() {
 				u = append(u, 1<<40)
 			}
-			vmodel.CheckSets(c, &vmodel.SetAPI[*IntSet, int]{
+			api := &vmodel.SetAPI[*IntSet, int]{
 				Name: "IntSet", Universe: u, Fresh: 99, Nil: nil,
 				New:        func(e ...int) *IntSet { return NewIntSet(e...) },
 				Copy:       func(s *IntSet) *IntSet { return s.Copy() },
@@ -37,7 +38,12 @@ func TestVerif(t *testing.T) {
 				String:     func(a *IntSet) string { return a.String() },
 				Less:       func(a, b int) bool { return a < b },
 				Quote:      func(e int) string { return fmt.Sprintf("%d", e) },
-			})
+			}
+			if long {
+				vmodel.CheckSetsLong(c, api, func(i int) int { return i })
+				return
+			}
+			vmodel.CheckSets(c, api)
 		},
 	})
 }
